@@ -59,7 +59,21 @@ RandCase(j) ==
     IN [s |-> s, d |-> d, f |-> RandomElement(0..3)]
 PrintRandom == \A j \in 1..NRandom : PrintT(<<"B", ToJson(RandCase(j))>>)
 
+(* vectors around the sizes at which imbl's Vector changes its representation (inline / one 64-item chunk / RRB tree), *)
+(* each built three ways by the harness (field b: 0 collected, 1 pushed to the front in reverse, 2 built longer and    *)
+(* popped from the front), so that the same contents come in different tree shapes                                    *)
+LargeLens == {1, 63, 64, 65, 66, 129, 200}
+Ramp(n, off) == [j \in 1..n |-> (j + off) % 17]
+LargeDiffs(n) ==
+    LET is == {0, n \div 2, n - 1, n, n + 1} \cap Nat IN
+    {DClear, DPopFront, DPopBack, DPushFront(9), DPushBack(9)}
+    \cup {DAppend(Ramp(m, 3)) : m \in LargeLens} \cup {DReset(Ramp(m, 5)) : m \in LargeLens}
+    \cup {DInsert(i, 9) : i \in is} \cup {DSet(i, 9) : i \in is} \cup {DRemove(i) : i \in is} \cup {DTruncate(i) : i \in is}
+PrintLarge == \A n \in LargeLens : \A d \in LargeDiffs(n) : \A f \in {0, 1} : \A b \in 0..2 :
+                PrintT(<<"B", ToJson([s |-> Ramp(n, 0), d |-> d, f |-> f, b |-> b])>>)
+
 ASSUME MCCommute
 ASSUME PrintCases
 ASSUME PrintRandom
+ASSUME PrintLarge
 =============================================================================
